@@ -582,7 +582,8 @@ pub fn run_with(cli: Cli, extra: &dyn Fn(&Report)) -> ! {
             let long: Vec<(Vec<usize>, usize)> = if !dir.starts_with("write") || si > 0 {
                 long
             } else if thorough {
-                long.into_iter().chain([(vec![9_000], 2), (vec![4_097, 5_000], 2), (vec![20_000], 1)]).collect()
+                // (deviation bound 2 on 9 000 bytes is half an hour of CPU per way of driving the stream: two ways)
+                if dir == "write" || dir == "write_retry" { long.into_iter().chain([(vec![9_000], 2), (vec![4_097, 5_000], 1), (vec![20_000], 1)]).collect() } else { long.into_iter().chain([(vec![9_000], 1)]).collect() }
             } else if dir == "write" {
                 long.into_iter().chain([(vec![9_000], 1)]).collect()
             } else {
